@@ -19,6 +19,11 @@ M2  count of GasPressureAdj in misc_models is 1 for gas phases (g, gas, G, Gas) 
     the caller's misc_models list is left unmodified (clause caller_list);
     a list shared between a gas and a surface species gives the surface species no
     adjustment (clause shared_list).
+NB  neighbourhood differentials, absolute tolerance max(1e-12, 8 eps scale): for P = 1 bar (1 +- {1 ulp, 1e-12, 1e-9,
+    1e-6, 4e-6, 1e-5, 1e-4}) value(P) - value(exactly 1 bar) = -/+ math.log(P) (S, G; 0 for species without the
+    adjustment); for coverages next to 0, 1 and every breakpoint value(x) - value(special x) = the reference
+    piecewise-linear difference / RT (H, G).  Temperatures next to T_mid, NASA-9 segment bounds, T_low, T_high and
+    the models' default T (298.15 K) are added to the M1 evaluations.
 M3  S(P) = S(1 bar) - ln P, G(P) = G(1 bar) + ln P, default pressure = 1 bar for species that
     carry the adjustment; no pressure dependence otherwise.
 CNT probe monitor: during one evaluation of Cp/H/S at n temperatures every attached model's
@@ -42,7 +47,12 @@ NT_RULE = ('species class x phase spelling x 0-4 user supplied models in random 
            'seeded PRNG after a list of directed cases; non-trivial = >=2 attached models, or an array of >=2 '
            'temperatures with a temperature/condition dependent model, or >=1 reload cycle; distinct = distinct '
            'canonical JSON of the case')
-REQUIRED_ORACLES = ['M1', 'M2', 'M3', 'CNT']
+REQUIRED_ORACLES = ['M1', 'M2', 'M3', 'CNT', 'NB']
+# neighbourhoods of special condition values: relative distances (None = one ulp), both sides
+NEAR_DIST = [('1ulp', None), ('1e-12', 1e-12), ('1e-9', 1e-9), ('1e-6', 1e-6), ('4e-6', 4e-6), ('1e-5', 1e-5),
+             ('1e-4', 1e-4)]
+NEAR_X_DIST = [('1ulp', None), ('1e-12', 1e-12), ('1e-9', 1e-9), ('1e-6', 1e-6)]
+T0_REF = 298.15
 GAS_SPELLINGS = ('g', 'gas', 'G', 'Gas')
 # add_gas_P_adj values: the spec stores the label (None = argument not passed)
 FLAG_LABELS = ['True', 'False', 'np.bool_(True)', 'np.bool_(False)', '1', '0']
@@ -59,6 +69,10 @@ REQUIRED_CLASSES = (['class:Nasa', 'class:Nasa9', 'class:Shomate'] +
                      'misc:None', 'misc:empty_list', 'misc:list',
                      'add_gas_P_adj:default'] + ['add_gas_P_adj:%s' % f for f in FLAG_LABELS] +
                     ['flag_route:%s:%s' % (f, op) for f in FLAG_LABELS for op in ('deepcopy', 'from_dict', 'json')] +
+                    ['P_near:%s%s' % (sg, lab) for lab, _ in NEAR_DIST for sg in '+-'] +
+                    ['x_near:0', 'x_near:1', 'x_near:break-', 'x_near:break+', 'T_near:T_mid-', 'T_near:T_mid+',
+                     'T_near:seg_bound-', 'T_near:seg_bound+', 'T_near:T_low', 'T_near:T_high', 'T_near:T0',
+                     'near:reloaded'] +
                     ['T:array_repeats', 'T:array_all_equal', 'T:array_descending', 'T:array_unsorted',
                      'model:gas_raw_entry', 'raw_entry:alone', 'raw_entry:first', 'raw_entry:last',
                      'raw_entry:middle',
@@ -308,7 +322,59 @@ def _gen_conditions(rng, spec):
     return cond
 
 
-def _finish(rng, spec, lengths=None, n_scalar=2):
+def _nb(v, d, side):
+    """neighbour of v at relative distance d (None = one ulp) on the given side (+1 / -1)."""
+    if d is None:
+        return math.nextafter(v, math.inf if side > 0 else -math.inf)
+    return v * (1.0 + side * d) if v != 0.0 else side * d
+
+
+def near_P(which=None):
+    out = []
+    for lab, d in NEAR_DIST:
+        for side, sg in ((1, '+'), (-1, '-')):
+            if which is None or (sg + lab) in which:
+                out.append([sg + lab, _nb(1.0, d, side)])
+    return out
+
+
+def _gen_near(rng, spec, full=False):
+    """boundary neighbourhoods of the special values of every condition."""
+    sp = spec['sp']
+    allP = [sg + lab for lab, _ in NEAR_DIST for sg in '+-']
+    nP = len(allP) if full else (3 if is_gas(sp['phase']) else 1)
+    near = {'P': near_P(set(rng.sample(allP, nP))), 'x': {}, 'T': []}
+    covs = [m for m in (spec['models'] or []) if m['kind'] == 'cov']
+    for m in (covs if full else covs[:2]):
+        cand = []
+        for lab, d in NEAR_X_DIST:
+            cand.append(['0', lab, 0.0, 5e-324 if d is None else d])
+            cand.append(['1', lab, 1.0, _nb(1.0, d, -1)])
+            for b in m['intervals'][1:]:
+                cand.append(['break-', lab, b, _nb(b, d, -1)])
+                cand.append(['break+', lab, b, _nb(b, d, +1)])
+        near['x'][m['name_j']] = cand if full else rng.sample(cand, min(2, len(cand)))
+    lo, hi = SG.T_range(sp)
+    cand = []
+    for lab, d in NEAR_X_DIST:
+        cand.append(['T_low', lab, _nb(lo, d, +1)])
+        cand.append(['T_high', lab, _nb(hi, d, -1)])
+        if sp['type'] == 'Nasa':
+            cand.append(['T_mid-', lab, _nb(sp['T_mid'], d, -1)])
+            cand.append(['T_mid+', lab, _nb(sp['T_mid'], d, +1)])
+        if sp['type'] == 'Nasa9':
+            for b in _breaks(sp):
+                cand.append(['seg_bound-', lab, _nb(b, d, -1)])
+                cand.append(['seg_bound+', lab, _nb(b, d, +1)])
+        if lo < T0_REF * (1 - 2e-6) and T0_REF * (1 + 2e-6) < hi and T0_REF not in _breaks(sp):
+            cand.append(['T0', lab, _nb(T0_REF, d, rng.choice([-1, 1]))])
+    if lo < T0_REF < hi and T0_REF not in _breaks(sp):
+        cand.append(['T0', '0', T0_REF])
+    near['T'] = cand if full else rng.sample(cand, min(3, len(cand)))
+    return near
+
+
+def _finish(rng, spec, lengths=None, n_scalar=2, full_near=False):
     """conditions + temperatures for a case whose species/models/history are fixed."""
     if any(op in ('from_dict', 'json') for op in spec['history']):
         spec['models'] = [m for m in (spec['models'] or []) if m['kind'] != 'const'] \
@@ -319,14 +385,15 @@ def _finish(rng, spec, lengths=None, n_scalar=2):
     if spec['sp']['type'] == 'Nasa9':
         spec['Ts'][-1] = _gen_T(rng, spec['sp'], 'last')
     spec['arrays'] = _gen_arrays(rng, spec['sp'], n_models, lengths)
+    spec['near'] = _gen_near(rng, spec, full_near)
     return spec
 
 
 def _case(rng, cls, phase, models, add=None, history=(), share=None, misc_none=False, name='CO(S)',
-          lengths=None, units=None):
+          lengths=None, units=None, full_near=False):
     spec = {'sp': _gen_species(rng, cls, name, phase, units), 'models': None if misc_none else list(models),
             'add_gas_P_adj': add, 'history': list(history), 'share': share}
-    return _finish(rng, spec, lengths)
+    return _finish(rng, spec, lengths, full_near=full_near)
 
 
 def directed(tier):
@@ -340,6 +407,13 @@ def directed(tier):
     gas = {'kind': 'gas'}
     raw = {'kind': 'gas_raw'}
     for n_cls, cls in enumerate(('Nasa', 'Nasa9', 'Shomate')):
+        # every boundary neighbourhood of P = 1 bar, of coverages 0 / 1 / breakpoints and of the temperature bounds
+        D.append(_case(rng, cls, GAS_SPELLINGS[n_cls], [covB, covC], lengths=[3], full_near=True))
+        D.append(_case(rng, cls, GAS_SPELLINGS[n_cls + 1], [gas, covB], history=['from_dict', 'json'], lengths=[2],
+                       full_near=True))
+        D.append(_case(rng, cls, 'Gas', [], misc_none=True, history=['json'], lengths=[2], full_near=True))
+        D.append(_case(rng, cls, 'S', [covB], history=['deepcopy'], lengths=[2], full_near=True))
+        D.append(_case(rng, cls, 'g', [covC], add='0', history=['from_dict'], lengths=[2], full_near=True))
         # repeated / all-equal / descending temperatures with 1, 2 and 4 attached models
         for ph, mods in (('S', [covB]), ('g', [covB, const]), ('Gas', [covC, gas, covB, covSelf]), ('s', [])):
             c = _case(rng, cls, ph, mods, lengths=[2], units='J/mol/K')
@@ -639,6 +713,79 @@ class _Eval:
                               dict(mech, P='given'), P=P, carries_adj=carries)
 
 
+def _near(ev, obj, hist):
+    """NB: differentials between a special condition value and its neighbours (absolute tolerance), plus the
+    neighbour temperatures through M1."""
+    import numpy as np
+    ctx, spec = ev.ctx, ev.spec
+    near = spec.get('near')
+    if not near:
+        return
+    cond = spec['cond']
+    eps = 2.220446049250313e-16
+    carries = any(m['kind'] == 'gas' for m in ev.models)
+    if hist['history'] == 'reloaded':
+        ctx.cls('near:reloaded')
+    inputs = [('scalar', spec['Ts'][0], [spec['Ts'][0]])]
+    if spec['arrays']:
+        a = spec['arrays'][0]
+        inputs.append(('array', _as_T(a), list(a['T'])))
+
+    def diff(clause, q, kind, T_in, kw0, kw1, want, mech_extra, extra_scale=0.0, **detail):
+        mech = dict(ev.base, q=q, T_kind=kind, clause=clause, **hist)
+        mech.update(mech_extra)
+        g = getattr(obj, 'get_' + q)
+        v0 = ctx.call('NB', mech, g, T=T_in, **kw0)
+        v1 = ctx.call('NB', mech, g, T=T_in, **kw1)
+        if v0 is core.NOVALUE or v1 is core.NOVALUE:
+            return
+        v0 = np.ravel(np.asarray(v0, dtype=float))
+        v1 = np.ravel(np.asarray(v1, dtype=float))
+        # rounding of value = fl(bare + fl(sum of models)) (and G = fl(H - S)): bounded by a few ulp of the
+        # largest intermediate, which is at most |value| + |bare H| + |bare S|
+        scale = float(max(1.0, np.max(np.abs(v0)), np.max(np.abs(v1)))) + extra_scale
+        T_all = np.ravel(np.asarray(T_in, dtype=float))
+        scale += max(abs(bare(ev.sp, qq, float(T), ev.R_sho)) for T in T_all
+                     for qq in (('HoRT', 'SoR') if q == 'GoRT' else (q,)))
+        tol = max(1e-12, 8 * eps * scale)
+        ctx.close('NB', v1 - v0, np.asarray(want, dtype=float), tol, mech, scale=1.0, tol_abs=tol,
+                  value_scale=scale, **detail)
+
+    # ---- pressure next to 1 bar: the monitor's own -ln P
+    kw_1bar = _kwargs(cond, 1.0)
+    for label, P in near['P']:
+        ctx.cls('P_near:' + label)
+        for kind, T_in, T_list in inputs:
+            for q, sign in (('SoR', -1.0), ('GoRT', +1.0)):
+                want = [sign * math.log(P) if carries else 0.0] * len(T_list)
+                diff('P_near', q, kind, T_in, kw_1bar, _kwargs(cond, P), want, {'dist': label.lstrip('+-')},
+                     P=P, side=label[0], carries_adj=carries)
+    # ---- coverages next to 0, 1 and the breakpoints
+    for j, pairs in near['x'].items():
+        on_j = [m for m in ev.models if m['kind'] == 'cov' and m['name_j'] == j]   # several models may watch j
+        if not on_j:
+            continue
+        for what, lab, x0, x1 in pairs:
+            ctx.cls('x_near:' + what)
+            d_pw = sum(pw_value(m['intervals'], m['slopes'], x1) - pw_value(m['intervals'], m['slopes'], x0)
+                       for m in on_j)
+            c0 = dict(cond, x=dict(cond['x'], **{j: x0}))
+            c1 = dict(cond, x=dict(cond['x'], **{j: x1}))
+            for kind, T_in, T_list in inputs:
+                want = [d_pw / (ev.R_kcal * T) for T in T_list]
+                # intermediates of the piecewise-linear functions themselves (slope x + intercept) / RT
+                mag = sum(2 * sum(abs(v) for v in m['slopes']) for m in on_j) / (ev.R_kcal * min(T_list))
+                for q in ('HoRT', 'GoRT'):
+                    diff('x_near', q, kind, T_in, _kwargs(c0), _kwargs(c1), want, {'x_at': what, 'dist': lab},
+                         extra_scale=mag, x0=x0, x1=x1, name_j=j)
+    # ---- temperatures next to the segment bounds / the models' default temperature
+    if near['T']:
+        for what, lab, T in near['T']:
+            ctx.cls('T_near:' + what)
+        Ts = [t[2] for t in near['T']]
+        ev.m1(obj, dict(hist, T_near=True), Ts if len(Ts) > 3 else Ts[:1], [{'kind': 'ndarray', 'T': Ts}])
+
+
 def _reload(ctx, obj, op, mech):
     from pmutt.io.json import pmuttEncoder, json_to_pmutt
     if op == 'copy':
@@ -794,6 +941,7 @@ def run_case(spec, ctx):
     # ---- constructed object: every temperature input
     ev.m1(obj, hist, spec['Ts'], spec['arrays'])
     ev.m3(obj, hist, spec['Ts'], spec['arrays'])
+    _near(ev, obj, hist)
     # ---- history
     disabled = not FLAG_TRUTHY[flag] and is_gas(phase)
     vias = []
@@ -820,3 +968,5 @@ def run_case(spec, ctx):
         ev.m1(obj, hist, spec['Ts'][-1:], spec['arrays'][:1] if not last else spec['arrays'])
         if last or hist['history'] == 'reloaded':
             ev.m3(obj, hist, spec['Ts'], spec['arrays'])
+        if last:
+            _near(ev, obj, hist)
